@@ -226,6 +226,7 @@ pub fn run(rng: &mut Rng, n: usize, rep: &mut Report) {
             g.deleverage_withdraw_window_cache.last_daily_reset_timestamp = now;
             let mut window_start = now;
             let mut sum: u128 = 0;
+            let mut hist: Vec<String> = vec![];
             for _ in 0..12 {
                 now += *rng.pick(&[0i64, 10, 3600, 86399, 86400]);
                 let dollars: u128 = match rng.below(6) {
@@ -234,19 +235,22 @@ pub fn run(rng: &mut Rng, n: usize, rep: &mut Report) {
                     _ => rng.below((limit as u64).min(10_000) + 5) as u128,
                 };
                 let v = I80F48::from_bits(((dollars << 48) as i128) + rng.below(1 << 48) as i128);
-                if now - window_start >= 86400 {
-                    window_start = now;
-                    sum = 0;
-                }
                 let r = std::panic::catch_unwind(std::panic::AssertUnwindSafe(|| g.clone_window().update_withdrawn_equity(v, now)));
                 let ok = matches!(r, Ok(Ok(())));
+                hist.push(format!("t+{} ${} {}", now - 1_700_000_000, dollars, if ok { "ok" } else { "refused" }));
                 cells += 1;
                 rep.bump("cases");
                 if ok {
                     let _ = g.update_withdrawn_equity(v, now);
+                    // the day (window) is counted from the first ACCEPTED withdrawal at least 24 h after the start of the
+                    // previous one: a refused call is rolled back with its transaction and leaves no trace
+                    if now - window_start >= 86400 {
+                        window_start = now;
+                        sum = 0;
+                    }
                     sum += dollars;
                     if sum > limit as u128 {
-                        rep.fail(format!("deleverage-window-wraps: whole-dollar withdrawals {} within one day exceed the daily limit {} (last value {} dollars accepted)", sum, limit, dollars));
+                        rep.fail(format!("deleverage-window-wraps: whole-dollar withdrawals {} within one day exceed the daily limit {} (last value {} dollars accepted); history {:?}", sum, limit, dollars, hist));
                         break;
                     }
                 }
